@@ -112,7 +112,7 @@ type SendCase[T any] struct {
 	v T
 }
 
-func CaseRecv[T any](c <-chan T) *RecvCase[T]     { return &RecvCase[T]{c: c} }
+func CaseRecv[T any](c <-chan T) *RecvCase[T]      { return &RecvCase[T]{c: c} }
 func CaseSend[T any](c chan<- T, v T) *SendCase[T] { return &SendCase[T]{c: c, v: v} }
 
 func (r *RecvCase[T]) sel() selCase {
@@ -219,10 +219,14 @@ func keyRank(k any) string {
 
 // Ctx is a context.Context whose Done channel lives in the scheduler.
 type Ctx struct {
-	done chan struct{}
-	err  error
-	name string
-	vals map[any]any
+	done     chan struct{}
+	err      error
+	name     string
+	vals     map[any]any
+	parent   context.Context
+	children []*Ctx
+	after    []func()
+	timer    *Timer
 }
 
 // NewCtx creates a cancellable controlled context.
@@ -234,7 +238,66 @@ func NewCtx(name string) *Ctx {
 
 func (c *Ctx) Deadline() (time.Time, bool) { return time.Time{}, false }
 func (c *Ctx) Done() <-chan struct{}       { return c.done }
-func (c *Ctx) Value(k any) any             { return c.vals[k] }
+func (c *Ctx) Value(k any) any {
+	if v, ok := c.vals[k]; ok {
+		return v
+	}
+	if c.parent != nil {
+		return c.parent.Value(k)
+	}
+	return nil
+}
+
+// WithValue returns a child that shares c's cancellation.
+func (c *Ctx) WithValue(k, v any) *Ctx {
+	ch := DeriveCtx(c)
+	ch.vals = map[any]any{k: v}
+	return ch
+}
+
+// DeriveCtx creates a cancellable child of parent (any context; a *Ctx parent propagates its cancellation).
+func DeriveCtx(parent context.Context) *Ctx {
+	E.nctx++
+	c := NewCtx(fmt.Sprintf("ctx%d", E.nctx))
+	c.parent = parent
+	if p, ok := parent.(*Ctx); ok {
+		if p.err != nil {
+			c.CancelNow()
+		} else {
+			p.children = append(p.children, c)
+		}
+	}
+	return c
+}
+
+// ExpireAfter cancels the context with DeadlineExceeded when d of virtual time has passed.
+func (c *Ctx) ExpireAfter(d int64) {
+	ch := MakeChan[struct{}](1)
+	c.timer = NewTimer(ch, d, func(int64) struct{} { return struct{}{} })
+	c.timer.tm.onFire = func() { c.cancelWith(context.DeadlineExceeded) }
+}
+
+// AfterFunc runs f (as part of the cancelling step) when the context is cancelled.
+func (c *Ctx) AfterFunc(f func()) (stop func() bool) {
+	if c.err != nil {
+		Go(f)
+		return func() bool { return false }
+	}
+	i := len(c.after)
+	c.after = append(c.after, f)
+	return func() bool {
+		if c.err != nil || c.after[i] == nil {
+			return false
+		}
+		c.after[i] = nil
+		return true
+	}
+}
+
+// VirtualNow returns the virtual time as a time.Time (same base as vtime).
+func VirtualNow() time.Time {
+	return time.Date(2030, 1, 1, 0, 0, 0, 0, time.UTC).Add(time.Duration(E.clock))
+}
 
 // Err is a scheduling point: it reads state another thread may change.
 func (c *Ctx) Err() error {
@@ -257,14 +320,29 @@ func (c *Ctx) Cancel() {
 
 // CancelNow cancels without a separate scheduling point before it (used by writers/readers that
 // fail and cancel in the same step, as net/http does).
-func (c *Ctx) CancelNow() {
+func (c *Ctx) CancelNow() { c.cancelWith(context.Canceled) }
+
+func (c *Ctx) cancelWith(err error) {
 	if c.err != nil {
 		return
 	}
-	c.err = context.Canceled
+	c.err = err
 	cs := E.lookupChan(chanKey(c.done), c.done, 0)
 	cs.closed = true
-	E.cur.hist = mix(E.cur.hist, hCloseOK)
+	if E.cur != nil {
+		E.cur.hist = mix(E.cur.hist, hCloseOK)
+	}
+	if c.timer != nil {
+		c.timer.Stop()
+	}
+	for _, ch := range c.children {
+		ch.cancelWith(err)
+	}
+	for _, f := range c.after {
+		if f != nil {
+			Go(f)
+		}
+	}
 }
 
 // Cancelled reports the state without a scheduling point (for oracles running at the end or inside a step).
